@@ -103,6 +103,18 @@ def run(ck, F, prefix='C11'):
              loc=f['loc'], fn=f['id'])
     rets_all = [(st, v) for st, k, v in outs if k == 'return']
     ISA = ('isa', 'ipr::Qualified', ('param', 1))
+    # a test of one implementation class (dynamic_cast<const impl::Qualified*>) recognises fewer operands than the interface
+    # category does: a Qualified node of another implementation of ipr::Qualified is then stored as a main variant
+    narrow = sorted({c[1] for st, v in rets_all for c, _val in st.conds
+                     if isinstance(c, tuple) and len(c) == 3 and c[0] == 'castto' and 'Qualified' in str(c[1]) and c[2] == ('addr', ('param', 1))})
+    if narrow and not any(c == ISA for st, v in rets_all for c, _val in st.conds):
+        ck.fail(R2, 'operand recognised by interface category', f'get_qualified recognises an already-qualified operand by a cast to {narrow} only: '
+                'a Qualified node that is not of that implementation class is not flattened and becomes a main variant that is itself Qualified',
+                loc=f['loc'], fn=f['id'])
+        # continue the analysis with that test in the role of the category test
+        ISA = [c for st, v in rets_all for c, _val in st.conds if isinstance(c, tuple) and len(c) == 3 and c[0] == 'castto' and c[1] in narrow][0]
+    else:
+        ck.ok(R2, 'operand recognised by interface category')
     # (a) operand of unknown class that turns out to be Qualified: the request must be re-issued on the union of the
     #     two sets over the operand's own main variant (and nothing else may be returned on that branch)
     for i, (st, v) in enumerate([(st, v) for st, v in rets_all if (ISA, True) in st.conds]):
@@ -189,6 +201,13 @@ def run(ck, F, prefix='C11'):
         ck.check(R2, f'Qualified operand/path{i}', not what,
                  'get_qualified(q2, get_qualified(q1, T)): ' + '; '.join(what) + ' (the documented invariant '
                  'Qualified(cv2, Qualified(cv1, T)) = Qualified(cv1|cv2, T) is not maintained)', loc=f['loc'], fn=f['id'])
+    # the node for (set, type) is the node of that key only if the table of qualified types finds equal what is equal:
+    # the comparator Sema selected for (stored Qualified, (qualifiers, type)) is judged by the KEY rules
+    if prefix == 'C11':
+        K = keyrule.KeyChecker(ck, F, 'C11')
+        K.factory(f)
+        K.finish_cover()
+        K.finish_partial()
     # who may construct
     makers = set()
     for g in F.fn.values():
